@@ -721,9 +721,13 @@ def fam_nodes(chk, tier):
                     chk.count("skipped:same-rechunk:" + type(e).__name__)
                     continue
                 check_node(chk, node, "rechunk-to-same-chunks", describe, nc, sid, seen_names)
+        try:
+            root_tb = [float(v) for v in x.expr.transfer_bytes]
+        except Exception as e:  # noqa: BLE001  (already reported by check_node for the root node)
+            root_tb = "raises " + type(e).__name__
         chk.case(("prog", progs.show(prog if prog[0] != "rechunk_p2p" else prog[1]), repr(prog[2]) if prog[0] == "rechunk_p2p" else "",
                   repr([s[1] for s in sources])), nontrivial=nontrivial,
-                 sample={"program": describe()["program"], "root_transfer": [float(v) for v in x.expr.transfer_bytes]})
+                 sample={"program": describe()["program"], "root_transfer": root_tb})
     _materialize._LOWER_CACHE.clear()
     for desc, nodes in direct_nodes(rng, N // 2, da):
         kind = desc.split("(")[0].split(" ")[0]
